@@ -30,11 +30,13 @@ type Config struct {
 	Params          map[string]int
 	Seed            int
 	Paranoid        bool
+	OneShot         bool
+	FallbackMs      int
 }
 
 func DefaultConfig() Config {
 	return Config{Unwind: 32, MaxSteps: 20_000_000, CheckAssumes: true, StopAtViolation: true, Workers: 8,
-		SolverTimeoutMs: 60000, MaxPaths: 2_000_000, Solver: "z3", WitnessEvery: 1, MaxWitnesses: 64, MaxViolations: 8}
+		SolverTimeoutMs: 60000, FallbackMs: 8000, MaxPaths: 2_000_000, Solver: "z3", WitnessEvery: 1, MaxWitnesses: 64, MaxViolations: 8}
 }
 
 // Witness is a concrete input vector for one explored path.
@@ -68,6 +70,8 @@ type Report struct {
 	UnknownBranch  int
 	PathLimit      bool
 	TimedOut       bool
+	OneShots       int
+	SolverTimeouts int
 	BranchStats    map[string][2]int
 }
 
@@ -125,6 +129,8 @@ func (e *Explorer) Run() *Report {
 			for f := range m.funcsHit {
 				funcs[f.String()] = true
 			}
+			e.rep.OneShots += m.solver.OneShots
+			e.rep.SolverTimeouts += m.solver.Timeouts
 			e.rep.Queries += m.solver.Queries
 			e.rep.SolverTime += m.solver.Time
 			e.rep.SolverErrors = append(e.rep.SolverErrors, m.solver.Errors...)
@@ -182,6 +188,8 @@ func (e *Explorer) newMachine() (*Machine, error) {
 	if err != nil {
 		return nil, err
 	}
+	s.OneShot = e.Cfg.OneShot
+	s.FallbackMs = e.Cfg.FallbackMs
 	cfg := e.Cfg
 	m := &Machine{P: e.P, ts: NewTermStore(), solver: s, cfg: &cfg,
 		globals: map[*ssa.Global]*value{}, inited: map[*ssa.Package]bool{}, extCache: map[*ssa.Function]externalFn{},
@@ -372,9 +380,8 @@ func (e *Explorer) wantWitness() bool {
 // checkWithModel checks stack ∧ t and, when sat, extracts the input model.
 func (m *Machine) checkWithModel(t *Term) (Result, *Witness) {
 	s := m.solver
-	s.define(t)
 	s.Push()
-	s.send(fmt.Sprintf("(assert %s)", t.ref()))
+	s.Assert(t)
 	r := s.Check()
 	var w *Witness
 	if r == Sat {
